@@ -211,31 +211,33 @@ def param_key_suffixes(prog):
     gi, ld = pc.methods.get("get_items"), pc.methods.get("load")
     if gi is None or ld is None:
         raise AnalysisError("anchor vanished: Parameter.get_items / Parameter.load")
+    def split_key(k):
+        """(prefix expression, literal suffix) of a per-parameter key: f"{prefix}suffix" or prefix + "suffix"."""
+        if isinstance(k, ast.JoinedStr) and len(k.values) == 2 and isinstance(k.values[0], ast.FormattedValue) \
+                and k.values[0].conversion == -1 and k.values[0].format_spec is None \
+                and isinstance(k.values[1], ast.Constant) and isinstance(k.values[1].value, str):
+            return k.values[0].value, k.values[1].value
+        if isinstance(k, ast.BinOp) and isinstance(k.op, ast.Add) and isinstance(k.right, ast.Constant) and isinstance(k.right.value, str):
+            return k.left, k.right.value
+        return None
     written, wvals = set(), {}
-    for n in ast.walk(gi):
-        if isinstance(n, ast.Dict):
-            for k, v in zip(n.keys, n.values):
-                if isinstance(k, ast.JoinedStr) and len(k.values) == 2 and isinstance(k.values[0], ast.FormattedValue) \
-                        and isinstance(k.values[1], ast.Constant):
-                    written.add(k.values[1].value)
-                    wvals[k.values[1].value] = v
-    read = {}
-    for n in ast.walk(ld):
-        if isinstance(n, ast.Subscript) and isinstance(n.slice, ast.BinOp) and isinstance(n.slice.op, ast.Add) \
-                and isinstance(n.slice.right, ast.Constant):
-            read[n.slice.right.value] = n.lineno
-    # prefix agreement: the resolved prefix expression, f"param_{param_id}", in both (whatever the local is called)
     rw, rr = Resolver(gi, prog, pc.module, pc), Resolver(ld, prog, pc.module, pc)
     pre_w, pre_r = set(), set()
     for n in ast.walk(gi):
         if isinstance(n, ast.Dict):
-            for k in n.keys:
-                if isinstance(k, ast.JoinedStr) and len(k.values) == 2 and isinstance(k.values[0], ast.FormattedValue):
-                    pre_w.add(str(U(rw.term(k.values[0].value, rw.stmt_of(k)))))
+            for k, v in zip(n.keys, n.values):
+                sk = split_key(k) if k is not None else None
+                if sk is not None:
+                    written.add(sk[1])
+                    wvals[sk[1]] = v
+                    pre_w.add(str(U(rw.term(sk[0], rw.stmt_of(k)))))
+    read = {}
     for n in ast.walk(ld):
-        if isinstance(n, ast.Subscript) and isinstance(n.slice, ast.BinOp) and isinstance(n.slice.op, ast.Add) \
-                and isinstance(n.slice.right, ast.Constant):
-            pre_r.add(str(U(rr.term(n.slice.left, rr.stmt_of(n)))))
+        if isinstance(n, ast.Subscript):
+            sk = split_key(n.slice)
+            if sk is not None:
+                read[sk[1]] = n.lineno
+                pre_r.add(str(U(rr.term(sk[0], rr.stmt_of(n)))))
     pre_w, pre_r = sorted(pre_w), sorted(pre_r)
     return written, wvals, read, pre_w, pre_r, pc, gi, ld
 
